@@ -1391,3 +1391,55 @@ def guards_satisfiable(guards, extra=()):
 def guards_imply(a, b):
     """every path on which all guards of `a` hold also satisfies all guards of `b`"""
     return all(not guards_satisfiable(a, [(c, not p)]) for c, p in b)
+
+
+# ---------------------------------------------------------------------- accumulators as comprehensions
+
+def acc_as_comp(flow, name: str):
+    """The value an accumulator local holds after its loop, as the comprehension IR it is equal to, or None.
+
+        X = []                      X = {}
+        for t in IT:                for t in IT:
+            [temps; guards]             [temps; guards / continue]
+            X.append(E)                 X[K] = V
+        -> [E for t in IT if G..]   -> {K: V for t in IT if G..}
+
+    Read off the facts: exactly one empty initialisation, exactly one mutating fact (append / element store) inside exactly one
+    `for` loop entered after the initialisation; the guards the store acquired inside the loop become the filters (a guard
+    with negative polarity becomes `not g`).  Temporaries are already expanded in the fact's value (use-def)."""
+    inits = [f for f in flow.facts if f.kind == "init" and f.target == name]
+    muts = [f for f in flow.facts if f.target == name and f.kind in ("append", "store", "augstore", "remove", "mutate", "delete")]
+    if len(inits) != 1 or len(muts) != 1:
+        return None
+    init, m = inits[0], muts[0]
+    iv = simp(init.value)
+    empty_list = iv in (("list", ()), ("call", ("global", "list"), (), ()))
+    empty_dict = iv in (("dict", ()), ("call", ("global", "dict"), (), ()), ("call", ("global", "OrderedDict"), (), ()))
+    if m.seq < init.seq or init.loops or len(m.loops) != 1 or m.loops[0].kind != "for":
+        return None
+    lp = m.loops[0]
+    if any(isinstance(x, tuple) and len(x) == 2 and x[0] == "acc" and x[1] == name for part in (m.value, m.index, lp.iter) if part is not None for x in walk(part)):
+        return None
+    outer = list(init.guards)
+    if list(m.guards[:len(outer)]) != outer:
+        return None
+    inner = m.guards[len(outer):]
+    bv = ("bv", "_a", next(_fresh))
+    sub = {}
+
+    def bound(x):
+        """loop-bound atoms (elem / idx / key / val of this loop) -> comprehension variables"""
+        for y in walk(x):
+            if isinstance(y, tuple) and len(y) == 3 and y[0] in ("elem", "idx", "key", "val") and y[2] == lp.id and y not in sub:
+                sub[y] = bv if y == ("elem", lp.iter, lp.id) else ("bv", f"_a_{y[0]}", next(_fresh))
+    for part in [m.value, m.index] + [g for g, _ in inner]:
+        if part is not None:
+            bound(part)
+    if any(k != ("elem", lp.iter, lp.id) for k in sub):
+        return None            # enumerate / zip / items destructuring: not needed so far, left to the loop-form rules
+    ifs = tuple(simp(subst(g if p else ("unop", "Not", g), sub)) for g, p in inner)
+    if m.kind == "append" and m.op == "append" and empty_list:
+        return ("comp", "list", simp(subst(m.value, sub)), ((bv, lp.iter, ifs),))
+    if m.kind == "store" and empty_dict:
+        return ("comp", "dict", ("tuple", (simp(subst(m.index, sub)), simp(subst(m.value, sub)))), ((bv, lp.iter, ifs),))
+    return None
